@@ -427,9 +427,10 @@ func c7Wrappers(c *Ctx) {
 		ok := true
 		other, trunc, nObj := DerivedObjects(cw, co, func(o derivedObj) {
 			got = o.Fields
-			ctxOK := strings.HasPrefix(got["context"], "append(co.context[:len(co.context):len(co.context)], fields") ||
-				strings.HasPrefix(got["context"], "append(append(make([]zapcore.Field), co.context") && strings.Contains(got["context"], "), fields")
-			ok = ok && got["LevelEnabler"] == "co.LevelEnabler" && got["logs"] == "co.logs" && ctxOK
+			rc, fl := PN(cw.Params[0]), PN(cw.Params[1])
+			ctxOK := strings.HasPrefix(got["context"], "append("+rc+".context[:len("+rc+".context):len("+rc+".context)], "+fl) ||
+				strings.HasPrefix(got["context"], "append(append(make([]zapcore.Field), "+rc+".context") && strings.Contains(got["context"], "), "+fl)
+			ok = ok && got["LevelEnabler"] == rc+".LevelEnabler" && got["logs"] == rc+".logs" && ctxOK
 		})
 		ok = ok && !trunc && nObj > 0 && len(other) == 0
 		c.Check(ok, "R7.4", FStr(cw), "rewrap-complete", cw.Pos(), "the derived observer shares enabler and log store and owns context = capped-append(parent context, fields) (%v)", got)
